@@ -116,7 +116,7 @@ def run(ctx):
     ctx.extra["exhaustive_part"] = {"alphabet": ALPHABET, "enumerations": enum,
                                     "what": "all texts up to length L, every byte range on character boundaries, every replacement up to length R"}
     if not ctx.quick: miri_smoke(ctx)
-    n = 150 if ctx.quick else 6000
+    n = 500 if ctx.quick else 6000
     for p in pmap(worker_random, [("%s/%d" % (ctx.seed, i), n, 50) for i in range(NCPU)]): ctx.merge(p)
     ctx.sample({"part": "enumeration", "example": {"text": "a/", "change": [2, 2, "/"], "meaning": "typing the second slash turns `/` into a comment"}})
     ctx.rule = ("exhaustive: all texts of length <= L over a 16-symbol alphabet with a member of every look-ahead class x all ranges x all replacements of length <= R; "
